@@ -61,7 +61,11 @@ def shards(tier, seed):
                 continue
             if kind == "actisense" and fault == "write_error":
                 continue            # this client has no wire format for sending (C19 covers send on it)
-            out.append({"name": f"{kind}-{fault}", "kind": kind, "what": "fault", "fault": fault, "tier": tier, "seed": seed})
+            out.append({"name": f"{kind}-{fault}", "kind": kind, "what": "fault", "fault": fault, "scb": "ok", "tier": tier, "seed": seed})
+            # a status callback that suspends widens every window in which connect() still holds its lock
+            for scb in ("slow", "slow_connected", "slow_disconnected"):
+                if tier != "quick" or (fault in ("write_error", "reset", "eof") and scb != "slow_disconnected"):
+                    out.append({"name": f"{kind}-{fault}-{scb}", "kind": kind, "what": "fault", "fault": fault, "scb": scb, "tier": tier, "seed": seed})
     return out
 
 
@@ -75,7 +79,7 @@ def make_send_message(kind):
     return m
 
 
-def fault_session(kind, fault, step, settle=40.0):
+def fault_session(kind, fault, step, settle=40.0, scb="ok"):
     info = {"injected": False, "inject_step": None, "inject_time": None, "conn_at_fault": None}
 
     async def scenario(sim):
@@ -127,12 +131,12 @@ def fault_session(kind, fault, step, settle=40.0):
         await asyncio.sleep(1.0)
         info["elapsed"] = loop.time() - 1000.0
         await sim.call("close")
-    sim, stats = simgw.run_session(kind, scenario)
+    sim, stats = simgw.run_session(kind, scenario, status_cb=scb)
     return sim, stats, info
 
 
-def check_recovery(sim, stats, info, acc, kind, fault, step):
-    w = {"client": kind, "fault": fault, "step": step, "status": sim.status if sim else None,
+def check_recovery(sim, stats, info, acc, kind, fault, step, scb="ok"):
+    w = {"client": kind, "fault": fault, "step": step, "status_cb": scb, "status": sim.status if sim else None,
          "trace_tail": [{k: (v.hex() if isinstance(v, bytes) else v) for k, v in e.items()} for e in (sim.trace if sim else []) if e["k"] not in ("state_sample", "write")][-40:]}
     acc.count("sessions")
     if stats["error"]:
@@ -148,7 +152,7 @@ def check_recovery(sim, stats, info, acc, kind, fault, step):
         acc.case(None)
         acc.count("fault_not_injectable_at_step")
         return
-    acc.case((kind, fault, step))
+    acc.case((kind, fault, step, scb))
     acc.count("faults_injected")
     t_f = info["inject_time"]
     after = [e for e in sim.trace if e["s"] >= info["inject_step"]]
@@ -252,8 +256,9 @@ def run_shard(spec, acc):
         acc.sample({"client": kind, "refusal_counts": ks, "errors": [type(e).__name__ for e in errs]})
         return
     fault = spec["fault"]
+    scb = spec.get("scb", "ok")
     # baseline length: steps until the first connection is idle in steady state
-    sim0, stats0, _ = fault_session(kind, "none", 10 ** 9, settle=1.0)
+    sim0, stats0, _ = fault_session(kind, "none", 10 ** 9, settle=1.0, scb=scb)
     if stats0["error"]:
         acc.inconclusive_because(f"simulator baseline: {stats0['error']}")
         return
@@ -262,13 +267,13 @@ def run_shard(spec, acc):
     if quick and len(steps) > 40:
         steps = steps[:30] + steps[30::3]
     for step in steps:
-        sim, stats, info = fault_session(kind, fault, step)
-        check_recovery(sim, stats, info, acc, kind, fault, step)
-    acc.set_exhaustive(f"{kind}/{fault}: every loop step 0..{steady}", not quick or len(steps) == steady + 1)
-    acc.sample({"client": kind, "fault": fault, "injection_steps": [steps[0], steps[-1]], "sessions": len(steps)})
+        sim, stats, info = fault_session(kind, fault, step, scb=scb)
+        check_recovery(sim, stats, info, acc, kind, fault, step, scb)
+    acc.set_exhaustive(f"{kind}/{fault}/status-callback-{scb}: every loop step 0..{steady}", not quick or len(steps) == steady + 1)
+    acc.sample({"client": kind, "fault": fault, "status_cb": scb, "injection_steps": [steps[0], steps[-1]], "sessions": len(steps)})
 
 
 def replay(w, acc):
     if "fault" in w:
-        sim, stats, info = fault_session(w["client"], w["fault"], w["step"])
-        check_recovery(sim, stats, info, acc, w["client"], w["fault"], w["step"])
+        sim, stats, info = fault_session(w["client"], w["fault"], w["step"], scb=w.get("status_cb", "ok"))
+        check_recovery(sim, stats, info, acc, w["client"], w["fault"], w["step"], w.get("status_cb", "ok"))
